@@ -77,7 +77,13 @@ func makeFrame(r *Rng, svc, fam, tagKind string, n int) frameCase {
 	wantID := id
 	switch svc {
 	case "youtube", "youtube-nocookie":
-		switch r.Intn(7) {
+		switch r.Intn(10) {
+		case 7: // query parameters named like id carriers: the id is the one in the path
+			path = "/embed/" + id + "?v=Other" + fmt.Sprint(n) + "&rel=0"
+		case 8:
+			path = "/embed/" + id + "/?autoplay=0&v=2&id=9&video_id=7"
+		case 9:
+			path = "/v/" + id + "&v=3&vi=4"
 		case 0:
 			path = "/embed/" + id
 		case 1:
@@ -95,7 +101,11 @@ func makeFrame(r *Rng, svc, fam, tagKind string, n int) frameCase {
 			path = "/embed//" + id + "//"
 		}
 	case "vimeo":
-		switch r.Intn(4) {
+		switch r.Intn(6) {
+		case 4:
+			path = "/video/" + id + "?id=77&video=88&clip_id=99"
+		case 5:
+			path = "/video/" + id + "/?v=66"
 		case 0:
 			path = "/video/" + id
 		case 1:
@@ -107,7 +117,11 @@ func makeFrame(r *Rng, svc, fam, tagKind string, n int) frameCase {
 			path = "/video/" + id + "/"
 		}
 	case "twitter":
-		switch r.Intn(3) {
+		switch r.Intn(5) {
+		case 3:
+			path = "/user/status/" + id + "?id=55&status=44"
+		case 4:
+			path = "/user/status/" + id + "/?tweet_id=33&s=20"
 		case 0:
 			path = "/user/status/" + id
 		case 1:
@@ -215,7 +229,7 @@ func fmtProbe(s string) string {
 
 func runC19(ctx *Ctx) {
 	rep := ctx.Rep
-	rep.Rule = "frames built from {service} x {host family: exact, sub-domain, suffix/prefix look-alike, userinfo, name in path/query, scheme-relative, relative, upper-case, port} x {id/path/query shapes} x {iframe, object data, object param, twitter blockquote}, probed on the extractors and distilled inside an article; distinct by (service, family, tag kind, path shape); non-trivial = host is a look-alike of an allow-listed one or an embed was recognised"
+	rep.Rule = "frames built from {service} x {host family: exact, sub-domain, suffix/prefix look-alike, userinfo, name in path/query, scheme-relative, relative, upper-case, port} x {id/path/query shapes, among them query parameters named like id carriers (v, id, video_id, clip_id, status, tweet_id) next to the id in the path} x {iframe, object data, object param, twitter blockquote}, probed on the extractors and distilled inside an article; distinct by (service, family, tag kind, path shape); non-trivial = host is a look-alike of an allow-listed one or an embed was recognised"
 	corrRoot := newCorr("rootdomain")
 	corrEmb := newCorr("embed")
 	corrMedia := newCorr("mediarender")
